@@ -204,21 +204,43 @@ fn run_on<S: Store>(case: &Value, opts: &RunOpts) -> Value {
     let mut data = S::fresh(host);
     let mut out = serde_json::Map::new();
     out.insert("store".into(), json!(S::name()));
-    let input = if case["input"].is_null() { data.add_unit().map_err(|e| format!("{}", e)) } else { make(&mut data, &case["input"]) };
+    let via_clone = case["via"].as_str() == Some("clone");
+    let mk_input = |data: &mut S| if case["input"].is_null() { data.add_unit().map_err(|e| format!("{}", e)) } else { make(data, &case["input"]) };
+    let mut input = Ok(0usize);
+    if !via_clone {
+        input = mk_input(&mut data);
+    }
+    let b = match if input.is_ok() { compile_into(src, &mut data) } else { Err(CompileFail::Build(String::new())) } {
+        Ok(b) => b,
+        Err(f) => {
+            if input.is_ok() {
+                let mut o = f.json();
+                o.as_object_mut().unwrap().insert("store".into(), json!(S::name()));
+                return o;
+            }
+            Built { start: 0, ibase: 0, jbase: 0, dbase: 0, entry_jump: 0, nnodes: 0, meta: vec![] }
+        }
+    };
+    if via_clone {
+        // compile once, run in a working copy: the input value is created in the copy
+        match data.working_copy() {
+            Some(Ok(c)) => data = c,
+            Some(Err(m)) => input = Err(format!("working copy: {}", m)),
+            None => {
+                out.insert("status".into(), json!("na"));
+                return Value::Object(out);
+            }
+        }
+        if input.is_ok() {
+            input = mk_input(&mut data);
+        }
+    }
     let input = match input {
         Ok(a) => a,
         Err(m) => {
             out.insert("status".into(), json!("inputerr"));
             out.insert("msg".into(), json!(m));
             return Value::Object(out);
-        }
-    };
-    let b = match compile_into(src, &mut data) {
-        Ok(b) => b,
-        Err(f) => {
-            let mut o = f.json();
-            o.as_object_mut().unwrap().insert("store".into(), json!(S::name()));
-            return o;
         }
     };
     out.insert("start".into(), json!(b.start));
@@ -254,7 +276,7 @@ pub fn run_case(case: &Value, _extra: &[String]) -> Value {
         }
     }
     let mut o = json!({"src": case["src"], "runs": runs});
-    for k in ["id", "ast", "input", "host", "exp", "explog", "tag", "inject", "variant_of", "base"] {
+    for k in ["id", "ast", "input", "host", "exp", "explog", "tag", "inject", "variant_of", "base", "via"] {
         if !case[k].is_null() {
             o[k] = case[k].clone();
         }
